@@ -1228,7 +1228,21 @@ func (e *Engine) checkRewrites() {
 		if q.IsFalse() {
 			continue
 		}
-		r := e.S.CheckWith(q)
+		var r smt.Result
+		if q.HasMul || q.MulC >= 2 {
+			// products: integer blasting decides these, bit-blasting often does not
+			if e.S2 == nil {
+				if s2, err := smt.New("cvc5-int", e.Opt.TimeoutMs); err == nil {
+					e.S2 = s2
+				}
+			}
+			if e.S2 != nil {
+				r = e.S2.CheckWith(q)
+			}
+		}
+		if r != smt.Unsat {
+			r = e.S.CheckWith(q)
+		}
 		if r != smt.Unsat {
 			e.inconclusive(fmt.Sprintf("rewrite-check-%v: %v => %v", r, raw, res))
 		}
